@@ -35,13 +35,14 @@ const (
 	exitWrong = 5 // canary answered wrongly / not at all without a stall
 	exitDead  = 6 // the receiver goroutine is gone
 	exitStall = 7 // canary made no progress within the hard wait
+	exitBlock = 8 // a library goroutine waits for a lock nobody is left to release
 	exitSetup = 9 // the rig could not be set up (not the subject's fault)
 )
 
 var hardWait = 30 * time.Second
 
 type outcome struct {
-	kind string // ok | wrong | dead | stall
+	kind string // ok | wrong | dead | blocked | stall
 	note string
 }
 
@@ -91,27 +92,13 @@ func safeHandler() *e2e.Handler {
 
 func newProcessor() *mainsvc.FFooProcessor { return mainsvc.NewFFooProcessor(safeHandler()) }
 
-var (
-	stackMu  sync.Mutex
-	stackBuf = make([]byte, 1<<18)
-)
+var stackMu sync.Mutex
 
 // goroutinesWith counts goroutines whose stack mentions sub.
 func goroutinesWith(sub string) int {
-	stackMu.Lock()
-	defer stackMu.Unlock()
-	var buf []byte
-	for {
-		n := runtime.Stack(stackBuf, true)
-		if n < len(stackBuf) {
-			buf = stackBuf[:n]
-			break
-		}
-		stackBuf = make([]byte, 2*len(stackBuf))
-	}
 	c := 0
-	for _, g := range bytes.Split(buf, []byte("\n\n")) {
-		if bytes.Contains(g, []byte(sub)) {
+	for _, g := range strings.Split(allStacks(), "\n\n") {
+		if strings.Contains(g, sub) {
 			c++
 		}
 	}
@@ -133,6 +120,7 @@ func await[T any](ch <-chan T, match func(T) bool, recvFunc string) (T, outcome)
 	var zero T
 	start := time.Now()
 	next := 100 * time.Millisecond
+	wedgedID := ""
 	for {
 		t := time.NewTimer(next)
 		select {
@@ -155,6 +143,15 @@ func await[T any](ch <-chan T, match func(T) bool, recvFunc string) (T, outcome)
 			default:
 			}
 			return zero, outcome{"dead", recvFunc}
+		}
+		// logical blocked-forever condition (two looks half a second apart)
+		if id, fn, where, st, ok := lockWedge(); ok {
+			if id == wedgedID {
+				return zero, outcome{"blocked", fn + " " + where + " " + st}
+			}
+			wedgedID = id
+		} else {
+			wedgedID = ""
 		}
 		if time.Since(start) > hardWait {
 			return zero, outcome{"stall", fmt.Sprintf("no progress for %v", hardWait)}
@@ -378,6 +375,10 @@ func runChild(args []string) int {
 		case "dead":
 			fmt.Fprintf(lg, "X %d dead %s\n", idx, out.note)
 			return exitDead
+		case "blocked":
+			fmt.Fprintf(lg, "X %d blocked %s\n", idx, out.note)
+			dumpGoroutines()
+			return exitBlock
 		default:
 			fmt.Fprintf(lg, "X %d stall %s\n", idx, out.note)
 			dumpGoroutines()
